@@ -1,3 +1,4 @@
--- This module serves as the root of the `MmtkModel` library.
--- Import modules here that should be built as part of the library.
-import MmtkModel.Basic
+import MmtkModel.Model.Arith
+import MmtkModel.Model.RevGroup
+import MmtkModel.Props.C33
+import MmtkModel.Props.C40
